@@ -1071,7 +1071,7 @@ namespace
                     case R_REDUCE:
                     {
                         unsigned ms = steps(200), me = steps(60);
-                        double rr = rng.coin(0.2) ? 0.33 : rng.uni(0.0, 1.0);
+                        double rr = rng.coin(0.2) ? 0.33 : (rng.coin(0.15) ? 1.0 : rng.uni(0.0, 1.0));  // documented range: between 0 and 1 (1.0 = any vertex)
                         par.i("maxSteps", ms).i("maxEmptySteps", me).num("rangeRatio", rr);
                         trace();
                         ret = ps.reduceVertices(q, ms, me, rr);
@@ -1080,7 +1080,7 @@ namespace
                     case R_PARTIAL:
                     {
                         unsigned ms = steps(200), me = steps(60);
-                        double rr = rng.coin(0.2) ? 0.33 : rng.uni(0.01, 1.0), sn = snap();
+                        double rr = rng.coin(0.2) ? 0.33 : (rng.coin(0.15) ? 1.0 : rng.uni(0.01, 1.0)), sn = snap();  // 1.0: the documented upper end
                         par.i("maxSteps", ms).i("maxEmptySteps", me).num("rangeRatio", rr).num("snapToVertex", sn);
                         trace();
                         ret = ps.partialShortcutPath(q, ms, me, rr, sn);
@@ -1126,7 +1126,7 @@ namespace
                         ptcBudget = rng.range(0, 300);
                         ob::PlannerTerminationCondition ptc([&] { return ++ptcEvals > ptcBudget; });
                         unsigned sa = (unsigned)rng.range(1, 20);
-                        double rr = rng.coin(0.2) ? 0.33 : rng.uni(0.01, 1.0), sn = snap();
+                        double rr = rng.coin(0.2) ? 0.33 : (rng.coin(0.15) ? 1.0 : rng.uni(0.01, 1.0)), sn = snap();  // 1.0: the documented upper end
                         par.i("ptcBudget", ptcBudget).i("samplingAttempts", sa).num("rangeRatio", rr).num("snapToVertex", sn);
                         trace();
                         ret = ps.findBetterGoal(q, ptc, sa, rr, sn);
